@@ -201,7 +201,8 @@ def readHeader : M ρ DErr (Option (Except DErr Header)) := do
   let vendor ← readU16
   let attr ← readU16
   if length < 6 then pure (some (.error (.invalidAVPLength (UInt16.ofNat length)))) else
-  pure (some (.ok { flags := UInt8.ofNat (o1.toNat % 64), payloadLength := UInt16.ofNat (length - 6),
+  let payloadLength ← subM length 6                -- `length - Self::LENGTH`
+  pure (some (.ok { flags := UInt8.ofNat (o1.toNat % 64), payloadLength := UInt16.ofNat payloadLength,
                     vendorId := vendor, attributeType := attr }))
 
 abbrev Res := Except DErr AVP
